@@ -144,6 +144,7 @@ inductive Act
   | wrRun (wr : Nat)
   | mutNoReact (e ty v : Nat)            -- `ReactiveMut::get_noreact`: write without triggering
   | resNoReact (ty v : Nat)              -- `ReactResMut::get_noreact`
+  | flushWorld                           -- `world.flush()` called by an exclusive system in the middle of its body
 deriving DecidableEq, Repr, Inhabited
 
 /-- Top-level operations performed by the harness between reaction trees (stack empty). -/
